@@ -1279,7 +1279,12 @@ def leaves(a):
         return out
     arr = onp.asarray(a)
     if arr.dtype == object:
-        es = list(arr.ravel())
+        es = []
+        for e in arr.ravel():
+            if isinstance(e, onp.ndarray):
+                es.extend(leaves(e))  # object arrays nested inside object arrays (0-d arrays as elements)
+            else:
+                es.append(e)
         if any(isinstance(e, (CS, complex, onp.complexfloating)) for e in es):
             # a complex object array: real entries (e.g. padding zeros) are complex numbers with zero imaginary part
             es = [e if isinstance(e, (CS, complex, onp.complexfloating)) else CS.L(e) for e in es]
